@@ -11,14 +11,24 @@ from pyModelChecking.BDD import OBDD, BDDNode
 import pyModelChecking.BDD.BDD as bddmod
 
 
+def present_order(order, k):
+    """the `ordering` argument as a plain list (k%3==0), a ListOrdering object (1) or Ordering(list) (2): the documented
+    type is Ordering; two OBDDs over equal orderings must be compatible whichever way each was given"""
+    from pyModelChecking.BDD.ordering import Ordering, ListOrdering
+    order = list(order)
+    return order if k % 3 == 0 else ListOrdering(order) if k % 3 == 1 else Ordering(order)
+
+
 def tree(node, memo=None):
     if isinstance(node, bddmod.BDDTerminalNode):
         return ['t', 1 if node.value else 0]
     return [node.var, tree(node.low), tree(node.high)]
 
 
-def heap_scan():
-    """(number of live non-terminals, number of duplicate (var, low, high) pairs)"""
+def heap_scan(ballast_ids=None, roots=()):
+    """(number of live non-terminals, number of duplicate (var, low, high) pairs).  With a ballast (diagrams the harness
+    keeps alive during the whole history, see make_ballast) the count is that of the history's own world: nodes outside
+    the ballast plus ballast nodes that are reachable from a handle of the history."""
     nodes = [n for n in BDDNode.nodes() if isinstance(n, bddmod.BDDNonTerminalNode)]
     seen = {}
     dups = 0
@@ -27,7 +37,36 @@ def heap_scan():
         if key in seen:
             dups += 1
         seen[key] = n
-    return len(nodes), dups
+    if ballast_ids is None:
+        return len(nodes), dups
+    reach = set()
+    stack = [r for r in roots]
+    while stack:
+        n = stack.pop()
+        if id(n) in reach or not isinstance(n, bddmod.BDDNonTerminalNode):
+            continue
+        reach.add(id(n))
+        stack.extend((n.low, n.high))
+    return sum(1 for n in nodes if id(n) not in ballast_ids) + len(reach & ballast_ids), dups
+
+
+def make_ballast(spec):
+    """many diagrams kept alive while a history runs: the unique table is consulted through the parent indexes of the
+    sons, whose length (and every size-dependent code path) grows with the number of live nodes"""
+    rnd = random.Random(spec['seed'])
+    vs = list(spec['order'])
+    keep = []
+    for i in range(spec['n']):
+        e = rand_expr(rnd, rnd.choice([2, 3, 3, 4]), vs)
+        try:
+            o = OBDD(render(e, 'sym'), list(vs))
+            keep.append(o)
+            v = rnd.choice(vs[:2])
+            keep.append(OBDD(v, list(vs)) & o)
+            keep.append(OBDD(v, list(vs)) | o)
+        except Exception:
+            pass
+    return keep
 
 
 def run_history(b):
@@ -40,7 +79,12 @@ def run_history(b):
 
 
 def _run(b):
+    ballast = make_ballast(b['ballast']) if b.get('ballast') else None
+    ballast_ids = None
+    if ballast is not None:
+        ballast_ids = set(id(n) for n in BDDNode.nodes() if isinstance(n, bddmod.BDDNonTerminalNode))
     order = list(b['order'])
+    ordk = b.get('shuf', b.get('trace', 0)) * 3 if b.get('ordstyle', 'vary') == 'vary' else 0
     ho = {}
     held = {}
     parked = {}
@@ -52,11 +96,12 @@ def _run(b):
         try:
             if op == 'var':
                 o = list(c.get('order', order))
-                held[c['h']] = OBDD(c['v'], o) if b.get('build', 'expr') == 'expr' else OBDD(BDDNode(c['v'], BDDNode(False), BDDNode(True)), o)
+                po = present_order(o, ordk + len(events))
+                held[c['h']] = OBDD(c['v'], po) if b.get('build', 'expr') == 'expr' else OBDD(BDDNode(c['v'], BDDNode(False), BDDNode(True)), po)
                 ho[c['h']] = o
             elif op == 'const':
                 o = list(c.get('order', order))
-                held[c['h']] = OBDD('1' if c['b'] else '0', o)
+                held[c['h']] = OBDD('1' if c['b'] else '0', present_order(o, ordk + len(events)))
                 ho[c['h']] = o
             elif op == 'apply':
                 a, d = held[c['h1']], held[c['h2']]
@@ -87,7 +132,7 @@ def _run(b):
             ex = None
         allh = dict(held)
         allh.update(parked)
-        live, dups = heap_scan()
+        live, dups = heap_scan(ballast_ids, [o.root for o in allh.values()])
         names = sorted(allh)
         same = []
         for i, x in enumerate(names):
@@ -101,6 +146,9 @@ def _run(b):
         events.append(ev)
     held.clear()
     parked.clear()
+    if ballast is not None:
+        events[0]['ballast_nodes'] = len(ballast_ids)
+        del ballast[:]
     return events
 
 
@@ -168,6 +216,10 @@ def bool_event(c):
     def text(e):
         st = c.get('style', 'sym')
         return render_chain(e) if st == 'chain' else render(e, st, rnd)
+    ok_ = rnd.randrange(9)
+
+    def olist(o, j=0):
+        return present_order(o, (ok_ // 3 if j else ok_))
     keep = []
     for ptext, pord in c.get('pre', []):          # diagrams kept alive while the event runs (history in the global heap)
         try:
@@ -182,13 +234,13 @@ def bool_event(c):
             s = 'lambda %s: %s' % (','.join(order), s)
             _, ev['out'] = obdd_out(lambda: OBDD(s))
         else:
-            _, ev['out'] = obdd_out(lambda: OBDD(s, list(order)))
+            _, ev['out'] = obdd_out(lambda: OBDD(s, olist(order)))
     elif op in ('binop', 'not', 'restrict'):
-        a, oa = obdd_out(lambda: OBDD(text(c['e1']), list(order)))
+        a, oa = obdd_out(lambda: OBDD(text(c['e1']), olist(order)))
         if a is None:
             ev['out'] = oa
         elif op == 'binop':
-            b, ob = obdd_out(lambda: OBDD(text(c['e2']), list(order)))
+            b, ob = obdd_out(lambda: OBDD(text(c['e2']), olist(order, 1)))
             if b is None:
                 ev['out'] = ob
             else:
@@ -199,15 +251,15 @@ def bool_event(c):
             _, ev['out'] = obdd_out(lambda: a.restrict(c['v'], c['b'] if rnd.random() < 0.5 else int(c['b'])))
     elif op == 'mixorder':
         def run():
-            a = OBDD(c['t1'], list(c['order1']))
-            b = OBDD(c['t2'], list(c['order2']))
+            a = OBDD(c['t1'], olist(c['order1']))
+            b = OBDD(c['t2'], olist(c['order2'], 1))
             return (a & b) if c['bop'] == 'and' else (a | b) if c['bop'] == 'or' else (a ^ b)
         _, ev['out'] = obdd_out(run)
     elif op == 'strrt':
         if c.get('notation') == 'lambda':
             o, ev['base'] = obdd_out(lambda: OBDD('lambda %s: %s' % (','.join(order), text(c['e']))))
         else:
-            o, ev['base'] = obdd_out(lambda: OBDD(text(c['e']), list(order)))
+            o, ev['base'] = obdd_out(lambda: OBDD(text(c['e']), olist(order)))
         if o is None:
             ev['rt1'] = ev['rt2'] = {'exc': 'base'}
         else:
@@ -221,8 +273,8 @@ def bool_event(c):
                     except Exception:
                         ev[k]['eq'] = False
     elif op == 'eqpair':
-        a, oa = obdd_out(lambda: OBDD(text(c['e1']), list(order)))
-        b, ob = obdd_out(lambda: OBDD(text(c['e2']), list(order)))
+        a, oa = obdd_out(lambda: OBDD(text(c['e1']), olist(order)))
+        b, ob = obdd_out(lambda: OBDD(text(c['e2']), olist(order, 1)))
         if a is None or b is None:
             ev['eq'] = ev['same'] = None
             ev['err'] = [oa, ob]
